@@ -175,6 +175,10 @@ def run(ctx):
         st = sorted({x[1] for x in r.store_exprs if x[0] == 'sf_command' and x[1] in ('psf->norm_float', 'psf->norm_double', 'psf->add_clipping', 'psf->float_int_mult', 'psf->scale_int_float')})
         ctx.ob('NORM-WIRE', cmd, st == [fld], c.loc(c.body), '%s stores into %s (required [%s])' % (cmd, st, fld), None)
 
+    # ---- G.711 kernels: grid index expressions (shared with C20)
+    from rules.C20 import g711_kernels
+    g711_kernels(ctx, prog)
+
     # ---- ROUND-ONLY
     ctx.rule('ROUND-ONLY', 'in the conversion files (pcm.c, common.c *_array, float32.c, double64.c, ulaw.c, alaw.c) every float/double -> integer conversion of a sample goes through psf_lrint / psf_lrintf: '
              'no cast of kind FloatingToIntegral occurs in a conversion kernel (frozen exceptions: the exponent arithmetic of the portable IEEE writers)', floor=60)
